@@ -62,6 +62,26 @@ where
     pub(crate) fn progress_yielded_counter(&self, num_yielded: usize) -> usize {
         self.yielded_counter.fetch_and_add(num_yielded)
     }
+
+    /// Returns a guard to be kept alive while the wrapped iterator is being used.
+    #[inline(always)]
+    pub(crate) fn complete_on_panic(&self) -> CompleteOnPanic<'_> {
+        CompleteOnPanic(&self.completed)
+    }
+}
+
+/// Guard which marks the iteration as completed if it is dropped during a panic;
+/// i.e., if the wrapped iterator panics while the caller is the one allowed to use it.
+/// The yielded counter is not progressed in this case; hence, without the flag,
+/// the callers waiting for their turn would wait forever.
+pub(crate) struct CompleteOnPanic<'a>(&'a AtomicBool);
+
+impl Drop for CompleteOnPanic<'_> {
+    fn drop(&mut self) {
+        if std::thread::panicking() {
+            self.0.store(true, atomic::Ordering::SeqCst);
+        }
+    }
 }
 
 impl<T: Send + Sync, Iter> From<Iter> for ConIterOfIter<T, Iter>
@@ -122,7 +142,9 @@ where
                     }
 
                     // SAFETY: no other thread has the valid condition to iterate, they are waiting
+                    let guard = self.complete_on_panic();
                     let next = unsafe { self.mut_iter() }.next();
+                    drop(guard);
                     match next.is_some() {
                         true => {
                             _ = self.yielded_counter.fetch_and_increment();
@@ -152,6 +174,7 @@ where
 
         self.progress_and_get_begin_idx(n).and_then(|begin_idx| {
             // SAFETY: no other thread has the valid condition to iterate, they are waiting
+            let guard = self.complete_on_panic();
             let iter = unsafe { self.mut_iter() };
             let end_idx = begin_idx + n;
             let buffer = (begin_idx..end_idx)
@@ -159,6 +182,7 @@ where
                 .take_while(|x| x.is_some())
                 .map(|x| x.expect("is_some is checked"))
                 .collect::<Vec<_>>();
+            drop(guard);
 
             match buffer.len() {
                 0 => {
